@@ -434,10 +434,11 @@ def reinterp_raws(tree: Tree, deep: bool):
 
     tails = ["secret.txt", "a.txt", "rootx/secret.txt"]
     out = []
-    for d in DOTS_RAW:
-        for sep in SEPS_RAW:
-            for tail in tails[:2]:
-                out.append(d + sep + tail)
+    for n, d in enumerate(DOTS_RAW):
+        for m, sep in enumerate(SEPS_RAW):
+            for k, tail in enumerate(tails[:2]):
+                if deep or sep == "/" or (n + m + k) % 3 == 0:      # quick: every dot spelling with '/', a third of the rest
+                    out.append(d + sep + tail)
         out.append(d + "/" + tails[2])
         out.append("sub/" + d + "/" + d + "/secret.txt")
         out.append(d)
